@@ -79,6 +79,23 @@ def analyse():
 IMMUTABLE_INIT = ('0', 'None', 'True', 'False')
 
 
+def _mutation_sites_by_attribute_name(attr):
+    """every `<expr>.attr.<mutator>(..)`, `<expr>.attr[..] = ..`, `<expr>.attr += ..` of the package (an instance attribute access reaches the class-level object)"""
+    sites = []
+    for rp in front.all_repo_py():
+        src, tree = front.parse_file(rp)
+        for x in ast.walk(tree):
+            if isinstance(x, ast.Call) and isinstance(x.func, ast.Attribute) and x.func.attr in MUTATORS and isinstance(x.func.value, ast.Attribute) and x.func.value.attr == attr:
+                sites.append('%s:%d' % (rp, x.lineno))
+            if isinstance(x, (ast.Assign, ast.AugAssign)):
+                for t in (x.targets if isinstance(x, ast.Assign) else [x.target]):
+                    if isinstance(t, ast.Subscript) and isinstance(t.value, ast.Attribute) and t.value.attr == attr:
+                        sites.append('%s:%d' % (rp, x.lineno))
+                    if isinstance(x, ast.AugAssign) and isinstance(t, ast.Attribute) and t.attr == attr:
+                        sites.append('%s:%d' % (rp, x.lineno))
+    return sites
+
+
 def obligations():
     """list of (id, ok, detail)"""
     a = analyse()
@@ -96,9 +113,13 @@ def obligations():
         same = init is not None and (init == val or (init in ('list()', '[]') and val in ('list()', '[]')) or (init in ('dict()', '{}') and val in ('dict()', '{}')))
         out.append(('C12/inventory/%s.%s/reset_to_initial' % loc, same, 'reset assigns %s, the class body initialises it to %s' % (val, init)))
     for loc, init in sorted(a['class_level'].items()):
-        mutable = init in ('list()', '[]', 'dict()', '{}', 'set()')
+        mutable = init in ('list()', '[]', 'dict()', '{}', 'set()') or init[:1] in '[{'
         if mutable and loc not in a['reset']:
-            out.append(('C12/inventory/%s.%s/mutable_is_reset' % loc, False, 'mutable class-level object %s.%s = %s is not reset by PEP._reset_classes' % (loc[0], loc[1], init)))
+            sites = _mutation_sites_by_attribute_name(loc[1])
+            # a class-level table nobody mutates (through the class OR through an instance: `self.a.append(..)` reaches the shared object) is a constant
+            out.append(('C12/inventory/%s.%s/mutable_is_reset' % loc, not sites,
+                        'mutable class-level object %s.%s = %s is not reset by PEP._reset_classes%s' % (
+                            loc[0], loc[1], init[:40], (' and is mutated at %s' % sites[:3]) if sites else ' but is mutated nowhere (constant table)')))
     out.append(('C12/inventory/PEP.__init__/resets_first', a['init_first'] is not None and '_reset_classes()' in a['init_first'],
                 'first statement of PEP.__init__: %s' % a['init_first']))
     # the reset happens when a model is created, and only then (a reset triggered by anything else - garbage collection, a solve - would wipe the registries
